@@ -29,11 +29,14 @@ type pageServer struct {
 	pages      [][]int // static part
 	futures    []futurePage
 	nextFuture int
-	failFetch  int // index of the page whose fetch fails (-1 never); 0 = first page
+	failFetch  int  // index of the page whose fetch fails (-1 never); 0 = first page
+	failOnce   bool // transient: only the first fetch of that page fails
+	failedOnce bool
 	failIter   int // index of the page whose iterator cannot be created (-1 never)
 	latency    time.Duration
 	fetches    int
 	closed     bool // stream closed by the server (HasFuture false)
+	ignoreCtx  bool // the fetcher does not look at its context: a request in flight when the context ends still returns its page
 	start      time.Time
 	log        []string
 }
@@ -86,13 +89,18 @@ func (s *pageServer) fetch(ctx context.Context, idx int) (*simPage, error) {
 		return nil, err // a remote fetch with a finished context fails
 	}
 	if s.latency > 0 {
-		select {
-		case <-ctx.Done():
-			return nil, ctx.Err()
-		case <-time.After(s.latency):
+		if s.ignoreCtx {
+			time.Sleep(s.latency)
+		} else {
+			select {
+			case <-ctx.Done():
+				return nil, ctx.Err()
+			case <-time.After(s.latency):
+			}
 		}
 	}
-	if s.failFetch == idx {
+	if s.failFetch == idx && !(s.failOnce && s.failedOnce) {
+		s.failedOnce = true
 		return nil, errFetch
 	}
 	if idx >= len(s.pages) {
@@ -109,7 +117,8 @@ func (p *simPage) GetNext(ctx context.Context) (pagination.IPage, error) {
 	return np, nil
 }
 
-func (p *simPage) HasFuture() bool { return !p.srv.closed }
+// HasFuture: only the last page of a chain carries the link to the future (a page that has a next page does not).
+func (p *simPage) HasFuture() bool { return !p.srv.closed && !p.HasNext() }
 
 func (s *pageServer) future(ctx context.Context) (*simPage, error) {
 	s.fetches++
@@ -182,10 +191,12 @@ func runC19(rc *RunCtx) {
 	}
 	staticItems := next
 	srv.latency = []time.Duration{0, 200 * time.Microsecond, 3 * time.Millisecond}[ch.Intn("lat", 3)]
+	srv.ignoreCtx = ch.Intn("ignorectx", 2) == 1
 	fault := ch.Pick("fault", 6, 2, 1)
 	switch fault {
 	case 1:
 		srv.failFetch = ch.Intn("failfetch", npages)
+		srv.failOnce = srv.failFetch > 0 && ch.Intn("transient", 2) == 1
 	case 2:
 		srv.failIter = ch.Intn("failiter", npages)
 	}
@@ -209,13 +220,26 @@ func runC19(rc *RunCtx) {
 	}
 	stopMode := ch.Pick("stop", 6, 1, 1, 1) // 0 none, 1 Stop, 2 Close, 3 context cancel
 	stopAfter := ch.Intn("stopafter", next+2)
+	// asyncStopAt > 0: the stop is issued by another goroutine at that simulated instant (1ns off every other
+	// instant), e.g. while a page request is in flight, instead of between two consumer calls
+	var asyncStopAt time.Duration
+	if stopMode != 0 && ch.Intn("asyncstop", 2) == 1 {
+		asyncStopAt = time.Duration(ch.Intn("asyncstopat", 40000))*time.Microsecond + time.Nanosecond
+		stopAfter = 1 << 30
+	}
 	// consumer program before the drain
 	nops := ch.Intn("nops", 12)
 	prog := make([]int, nops)
 	for i := range prog {
 		prog[i] = ch.Pick("op", 3, 3, 1) // 0 HasNext, 1 GetNext, 2 HasNext twice
 	}
-	res.Config = fmt.Sprintf("kind=%d pages=%v futures=%v latency=%v failFetch=%d failIter=%d grace=%v backoff=%v dryAt=%v stop=%d after %d items prog=%v", kind, srv.pages, srv.futures, srv.latency, srv.failFetch, srv.failIter, grace, backoff, dryAt, stopMode, stopAfter, prog)
+	// a slow consumer: one pause longer than the grace period somewhere during the iteration (streams only)
+	thinkAt, thinkFor := -1, time.Duration(0)
+	if stream && ch.Intn("slowconsumer", 4) == 0 {
+		thinkAt = ch.Intn("thinkat", staticItems+1)
+		thinkFor = grace + time.Duration(1+ch.Intn("thinkfor", 600))*time.Millisecond
+	}
+	res.Config = fmt.Sprintf("slowConsumer=(after %d items: %v) kind=%d pages=%v futures=%v latency=%v failFetch=%d(transient=%v) failIter=%d grace=%v backoff=%v dryAt=%v stop=%d after %d items asyncStopAt=%v fetcherIgnoresCtx=%v prog=%v", thinkAt, thinkFor, kind, srv.pages, srv.futures, srv.latency, srv.failFetch, srv.failOnce, srv.failIter, grace, backoff, dryAt, stopMode, stopAfter, asyncStopAt, srv.ignoreCtx, prog)
 	for _, p := range srv.pages {
 		model = append(model, p...)
 	}
@@ -239,6 +263,7 @@ func runC19(rc *RunCtx) {
 			}
 		}
 	}
+	retried := false
 	getFailedEarly := ""
 	var yielded []int
 	var events []string
@@ -339,6 +364,7 @@ func runC19(rc *RunCtx) {
 			events = append(events, fmt.Sprintf("stop(%d)@%v", stopMode, time.Since(srv.start)))
 		}
 		get := func() bool {
+			stoppedBefore := stopped // a call already in progress when the stop happens may still complete
 			v, err := p.GetNext()
 			if err != nil {
 				events = append(events, "G:err")
@@ -347,11 +373,15 @@ func runC19(rc *RunCtx) {
 				}
 				return false
 			}
-			if stopped {
+			if stoppedBefore {
 				afterStopYield = true
 			}
 			yielded = append(yielded, v.(int))
 			events = append(events, fmt.Sprintf("G:%v", v))
+			if len(yielded) == thinkAt {
+				time.Sleep(thinkFor)
+				events = append(events, fmt.Sprintf("pause(%v)", thinkFor))
+			}
 			if stopMode != 0 && !stopped && len(yielded) >= stopAfter {
 				doStop()
 			}
@@ -365,6 +395,13 @@ func runC19(rc *RunCtx) {
 		if stopMode != 0 && stopAfter == 0 {
 			doStop()
 		}
+		if asyncStopAt > 0 {
+			t := time.AfterFunc(asyncStopAt, doStop)
+			defer t.Stop()
+		}
+		if thinkAt == 0 {
+			time.Sleep(thinkFor)
+		}
 		for _, op := range prog {
 			switch op {
 			case 0:
@@ -372,9 +409,10 @@ func runC19(rc *RunCtx) {
 			case 1:
 				get()
 			default:
+				f0 := srv.failedOnce
 				h1 := has()
 				h2 := has()
-				if h1 != h2 && !stream {
+				if h1 != h2 && !stream && !(srv.failOnce && !f0 && srv.failedOnce && !h1 && h2) { // (a transient fetch failure answered the first call)
 					inconsistent = fmt.Sprintf("two consecutive HasNext calls returned %v then %v", h1, h2)
 				}
 			}
@@ -389,6 +427,19 @@ func runC19(rc *RunCtx) {
 			if !get() && !stream {
 				inconsistent = "HasNext returned true but the following GetNext failed"
 				break
+			}
+		}
+		if srv.failOnce && srv.failedOnce && !stream && !stopped {
+			// the fetch that failed was a transient fault: a consumer that simply asks again gets the rest
+			retried = true
+			for i := 0; i < 400; i++ {
+				if !has() {
+					break
+				}
+				if !get() {
+					inconsistent = "HasNext returned true but the following GetNext failed"
+					break
+				}
 			}
 		}
 		endAt = time.Since(srv.start)
@@ -470,6 +521,14 @@ func runC19(rc *RunCtx) {
 			expect += len(srv.pages[i])
 		}
 	}
+	if retried && srv.failIter < 0 {
+		expect = staticItems // the retry after the transient fetch failure reaches everything
+	}
+	if srv.failOnce && !retried && !stream {
+		// the consumer program itself may or may not have asked again before the stop: order and at-most-once were
+		// checked above, how far it got is not determined by the script
+		return
+	}
 	if stopMode != 0 {
 		if stopAfter < expect {
 			expect = stopAfter
@@ -480,6 +539,12 @@ func runC19(rc *RunCtx) {
 		}
 	}
 	if !stream {
+		if asyncStopAt > 0 {
+			if len(yielded) > expect {
+				res.Violate("sequence", "sequence-too-long|"+kname, fmt.Sprintf("%s: yielded %d items, at most %d exist", res.Config, len(yielded), expect))
+			}
+			return
+		}
 		if len(yielded) != expect {
 			res.Violate("sequence", "sequence-incomplete|"+kname, fmt.Sprintf("%s: yielded %d items %v, expected exactly the first %d of %v", res.Config, len(yielded), yielded, expect, model))
 		}
@@ -487,8 +552,16 @@ func runC19(rc *RunCtx) {
 	}
 	// streams: static part as above (unless cut), plus future pages that appeared in time
 	if cut >= 0 || stopMode != 0 {
-		if len(yielded) < expect && cut < 0 {
+		if len(yielded) < expect && cut < 0 && asyncStopAt == 0 {
 			res.Violate("sequence", "sequence-incomplete|"+kname, fmt.Sprintf("%s: yielded %d items, expected at least %d before the stop", res.Config, len(yielded), expect))
+		}
+		return
+	}
+	if thinkAt >= 0 {
+		// with a pause in the iteration the instants at which future pages are requested are the consumer's: the pages
+		// already published through next links are owed whatever the pace, the future ones are not judged
+		if len(yielded) < staticItems {
+			res.Violate("sequence", "stream-static-items-lost-with-slow-consumer|"+kname, fmt.Sprintf("%s: yielded %d items %v; the %d items of the pages linked through next must be yielded however slowly the consumer iterates", res.Config, len(yielded), yielded, staticItems))
 		}
 		return
 	}
